@@ -14,7 +14,7 @@ use std::time::Duration;
 use crate::exop_impl::StartTLS;
 use crate::ldap::Ldap;
 use crate::protocol::{ItemSender, LdapCodec, LdapOp, MaybeControls, MiscSender, ResultSender};
-use crate::result::{LdapError, Result};
+use crate::result::{LdapError, LdapResultExt, Result};
 use crate::search::SearchItem;
 use crate::RequestId;
 
@@ -867,16 +867,27 @@ impl LdapConnAsync {
                         Some(Ok(resp)) => resp,
                     };
                     if let Some(tx) = self.searchmap.get(&id) {
+                        // A response which makes no sense for a Search ends the connection,
+                        // like any other undecodable input.
+                        let bad_response = || {
+                            LdapError::from(io::Error::new(io::ErrorKind::Other, "decoding error"))
+                        };
                         let protoop = if let Tag::StructureTag(protoop) = tag {
                             protoop
                         } else {
-                            panic!("unmatched tag structure: {:?}", tag);
+                            return Err(bad_response());
                         };
                         let (item, mut remove) = match protoop.id {
                             4 | 25 => (SearchItem::Entry(protoop), false),
-                            5 => (SearchItem::Done(Tag::StructureTag(protoop).into()), true),
+                            5 => match LdapResultExt::try_from_tag(Tag::StructureTag(protoop)) {
+                                Some(res) => (SearchItem::Done(res.0), true),
+                                None => return Err(bad_response()),
+                            },
                             19 => (SearchItem::Referral(protoop), false),
-                            _ => panic!("unrecognized op id: {}", protoop.id),
+                            id => {
+                                warn!("unrecognized op id for a search: {}", id);
+                                return Err(bad_response());
+                            }
                         };
                         if let Err(e) = tx.send((item, controls)) {
                             warn!("ldap search item send error, op={}: {:?}", id, e);
